@@ -193,6 +193,12 @@ def rule_provision(rep, tname, m):
         sa = sh["accept_state"]
         sites.append(("set_chunk_size", sh["fn"], sa.fields.get("needed_input_size"), self_field("last_index"), self_field("resample_ratio"),
                       self_field("target_ratio"), sa.fields.get("chunk_size"), None))
+    # (6) reset: the request it leaves must provision for the state it leaves
+    rfn = facts.need_method(tname, "reset", "Resampler")
+    rst = ir.SymExec(facts, tname).run(rfn)
+    rf = rst.fields
+    sites.append(("reset", rfn, rf.get("needed_input_size"), rf.get("last_index", self_field("last_index")), rf.get("resample_ratio", self_field("resample_ratio")),
+                  rf.get("target_ratio", self_field("target_ratio")), rf.get("chunk_size", self_field("chunk_size")), None))
     for label, fn, ni, li, rr, tt, nn, _ in sites:
         key = "%s::%s" % (tname, label)
         if ni is None:
@@ -208,6 +214,8 @@ def rule_provision(rep, tname, m):
                    "`%s`: the float→usize cast saturates at 0 when last_index + advance is negative, and the constant %s is added afterwards; add the constant before rounding" % (show(ni)[:120], outside),
                    loc(fn))
         margin = provision_margin(alg, v, alg.conv(li), alg.conv(rr), alg.conv(tt), alg.conv(nn), tb)
+        if label == "reset":
+            margin = sp.simplify(margin.replace(idiv_f, lambda a, b: a / b))   # integer halves of a length that is a multiple of 8
         free = margin.free_symbols
         bad = sorted(str(s) for s in free if str(s) in ("resample_ratio", "target_ratio", "chunk_size", "last_index") or str(s).startswith(("havoc", "new_ratio", "rel_ratio", "chunksize")))
         ok = not bad
@@ -257,7 +265,7 @@ def run(rep):
     rep.floor("R-C06-setter", 1 + 4 * 5)
     rep.floor("R-C06-step", 4 * 3 + 18)
     rep.floor("R-C06-scev", 9)
-    rep.floor("R-C06-provision", 5 + 1 + 5 + 1 + 1)
+    rep.floor("R-C06-provision", 5 + 1 + 5 + 1 + 1 + 2)
     rep.clause("R-C06-setter", "accepted ratio changes store target (and current iff !ramp); every process call ends with resample_ratio := target_ratio")
     rep.clause("R-C06-step", "in all 18 arms t_ratio and idx are each advanced exactly once per frame (idx by t_ratio) before the position is used; t_ratio starts at 1/ratio, increment is (1/target−1/ratio)/frames")
     rep.clause("R-C06-scev", "fixed-output types: closed form of the induction variables gives t_N = 1/target after exactly chunk_size frames, t_k linear hence monotone and between the reciprocals, for every ratio pair")
